@@ -13,7 +13,7 @@ from ..world import EPS, World, compare, default_inputs_backward, default_params
 ID = "C12"
 LEVEL = "exploration"
 BUDGET = {
-    "quick": {"runs": 1600, "wall": 240, "chunk": 25},
+    "quick": {"runs": 4000, "wall": 240, "chunk": 25},
     "thorough": {"runs": 40000, "wall": 3000, "chunk": 100},
 }
 RULE = (
